@@ -451,14 +451,22 @@ fn auth_matrix() -> SimResult {
     let baddr = b.listen();
     run_until_idle();
     let kinds = [Auth::Honest, Auth::OtherPeer, Auth::LocalPeer];
+    let third_peer = PeerId::random();
+    let hang_addr = net::node_addr(b.idx, 9998);
+    net::script(&hang_addr, Script::Hang);
     let n = 4 + choose(12);
     let mut plan = vec![];
     let mut sample = vec![];
     for i in 0..n {
         // forced schedule enumerates the 9 combinations, then random ones
         let (ao, ai) = if i < 9 && choose(4) != 0 { (kinds[i % 3], kinds[i / 3]) } else { (kinds[choose(3)], kinds[choose(3)]) };
-        // expected peer id of the dial: none, the remote's, or (rarely) our own id
-        let with_peer = [0usize, 1, 1, 1, 1, 2][choose(6)];
+        // expected peer id of the dial: none, the remote's, (rarely) our own id, or a third peer while another dial to the
+        // remote is pending (a connection that authenticates as "some peer we are dialing anyway" is still the wrong one)
+        let with_peer = [0usize, 1, 1, 1, 1, 2, 3][choose(7)];
+        if with_peer == 3 {
+            let _ = a.dial(DialOpts::peer_id(b.peer).condition(PeerCondition::Always).addresses(vec![hang_addr.clone()]).build());
+            probe("wrong-peer-dial-while-obtained-peer-is-being-dialed");
+        }
         net::with_net(|nn| {
             nn.forced_auth.push_back(ao);
             nn.forced_auth.push_back(ai);
@@ -472,11 +480,17 @@ fn auth_matrix() -> SimResult {
         // a dial may also run with the listener role (hole punching): the identity rules are the same
         let override_role = choose(4) == 0;
         let opts = match with_peer {
-            1 | 2 => {
+            1 | 2 | 3 => {
                 if with_peer == 2 {
                     probe("dial-expecting-own-peer-id");
                 }
-                let o = DialOpts::peer_id(if with_peer == 1 { b.peer } else { a.peer }).condition(PeerCondition::Always).addresses(vec![baddr.clone()]);
+                let o = DialOpts::peer_id(match with_peer {
+                    1 => b.peer,
+                    2 => a.peer,
+                    _ => third_peer,
+                })
+                .condition(PeerCondition::Always)
+                .addresses(vec![baddr.clone()]);
                 if override_role {
                     probe("dial-with-role-override");
                     o.override_role().build()
@@ -523,6 +537,7 @@ fn auth_matrix() -> SimResult {
         let expected = match *with_peer {
             1 => Some(b.peer),
             2 => Some(a.peer),
+            3 => Some(third_peer),
             _ => None,
         };
         let expect_out = if expected.map(|e| claimed_to_dialer != e).unwrap_or(false) {
